@@ -16,6 +16,33 @@ def shipped_params():
 TOYS = {"toy11": (23, 11, 2), "toy1019": (2039, 1019, 4), "toy257": (1543, 257, 64),
         "sp61": (2305843009213699919, 1152921504606849959, 4)}
 
+# a custom group whose subgroup order is wider than 2048 bits (scalar_size_bytes = 257, element size 258): the shipped
+# groups and the toys above all have scalars of at most 32 bytes.  q = first prime at or above a SHA-256 derived 2052-bit
+# odd number, p = k*q + 1 the first such prime (k = 4740), g = 2^k mod p  (generated once with Miller-Rabin, checked by
+# the constructor under test: pow(g, q, p) == 1)
+_BIG_P = int(
+    "cf00e742b4c5d047c7f22469723a9019ec21c927b929874fe756e99e8bd1bb4509ce39357129e5b952e7124adf0157592c05"
+    "828a70804152123c7ded2edb21784285a78e6a7ff4ae2328193e1440dfcc3beb32a0d9411c3a540551701ccb99fa7efb0546"
+    "0e85b4ba3248127f438cea26d92299dfe36d183d9b70747cbfead08d29e25bc22a0969e10e32787afe26bea33d80057c1608"
+    "e3d5ff70ecc2fec5c2d1a5564c33a8124b06f7663d856ae3a0395d43634390f8ba65f9569690151534d86f18258542843e83"
+    "780eb85b621db82dadbff34b40c08e3f0f8450eb0d236db253d88e4cae28e29dfb94a49a6c0691ee03a871a0f8b8d8853864"
+    "7bb980b1d1b5c8bd", 16)
+_BIG_Q = int(
+    "b2e1060ede517feb1250eb6691cdef3ca36f811b3279de22ea0ab9e46338271e7e6d8195a94bbd3918c27dfc000128b30648"
+    "988e190f8f1349df27e71926c87404c5969fcadb051fe029904dd72c2d9fd9e8683d3909627e03e81440e84683c31335cf69"
+    "b084d29d029ea1973c5127aa51c70def0d8bdb0cd6af616b95a3cf3886b47b5cd2043efa370afe09ee6a8002ccccd18a1eb4"
+    "f0f3af270983fe133c8c8c47fafd53aab432173ea434357b082fd79cf5a4757f70e5d661b931f9972f9c22a59bc7310dd236"
+    "69e7fe9487c4ff12f309adbaa7dc2fbd8394419a822c02548943aab59fc975d6f04c997920a4ada163ba637ca07d2a93867f"
+    "036f427d934cf", 16)
+_BIG_G = int(
+    "adb3167686f2f5fbcda849bd0728b4f05a2e743a39fb7dd161dcf3f9951f604e51f3038c18622a22b56ed661f937b17052ff"
+    "6ca8ec1dad0203b72c4a30e39a8aad5a5fffb424fd8fe502178be752d0575a77434a46a76c9c7d78e5aafd3aff392bfeb24e"
+    "a38888b7b0b55078a70d49f226a00135d2174addabf859590adf3062e9f7dc3df648da62b68e11b7d7fbf8f54a4174b08e07"
+    "3723b90b8887224a17c9a70567ef97fe5c0e5e6bb84dc46f35d58784e79fcedd1d9f1bc2430ce5e699e709bf0a319660a400"
+    "3e7306901164aa5359cd5e5a1591bb5c475e389d7024233c3b96e742229ac547a9daa9bdc22a2a8992793de30d15f9c963d5"
+    "14e2ad262142d49d", 16)
+TOYS["big2052"] = (_BIG_P, _BIG_Q, _BIG_G)
+
 
 def toy_group(name="toy11", g=None):
     from spake2.groups import IntegerGroup
